@@ -4,6 +4,7 @@ Theorems about the executable model of `mxlpy/sbml/_export.py` (Model/C08Export.
 from the repo's source) against the two declarative semantics of Model/C08Sem.lean / C08Doc.lean.
 -/
 import MxlVerif.Lemmas.C08Roundtrip
+import MxlVerif.Lemmas.C08Compartment
 namespace Mxl.C08
 open Gen
 
@@ -425,6 +426,115 @@ example : ∃ d, exportModel clashModel = .ok d ∧
     docRhs (fun _ _ => none) d [("x", 2), ("y", 3)] "y" = some 117 := by
   refine ⟨_, rfl, ?_, ?_⟩ <;> decide +kernel
 
+/-! ### the `compartments` option and the species attributes (findings F-C08-14 / -15 / -16, repaired) -/
+
+/-- `write(model, file, compartments=…)` writes, whatever the option, the components `exportModel` writes:
+    every round-trip theorem above holds for the document of every successful `write`. -/
+theorem C08_write_doc_is_export (m : PyModel) (o : Option (List (String × Rat))) (dc : SDocC)
+    (h : writeModel m o = .ok dc) : exportModel m = .ok dc.doc := by
+  obtain ⟨cs, _, he⟩ := writeModel_ok h
+  exact (exportModelC_doc he).1
+
+/-- no dangling compartment (F-C08-15): every species is written, with the compartment of each being one of
+    the compartments the file declares; a model with variables has exactly one species entry per species. -/
+theorem C08_species_compartment_declared (m : PyModel) (o : Option (List (String × Rat))) (dc : SDocC)
+    (h : writeModel m o = .ok dc) :
+    (∀ s ∈ dc.species, s.compartment ∈ dc.compartments.map (·.1)) ∧
+    (m.vars ≠ [] → dc.species.map (·.id) = dc.doc.species.map (·.1)) := by
+  obtain ⟨cs, _, he⟩ := writeModel_ok h
+  obtain ⟨_, hcs, comp, hcomp, hsp⟩ := exportModelC_doc he
+  constructor
+  · intro s hs
+    rw [hsp] at hs
+    cases comp with
+    | none => simp [speciesAttrs] at hs
+    | some c =>
+      simp only [speciesAttrs, List.mem_map] at hs
+      obtain ⟨kv, _, rfl⟩ := hs
+      rw [hcs]
+      exact speciesCompartment_mem hcomp
+  · intro hv
+    cases hvars : m.vars with
+    | nil => exact absurd hvars hv
+    | cons v vs =>
+      rw [hvars] at hcomp
+      obtain ⟨c, rfl⟩ := speciesCompartment_some hcomp
+      rw [hsp]
+      simp [speciesAttrs, Function.comp_def]
+
+/-- the species are amounts (F-C08-14): for every size of the compartment — also 0 — the identifier of a written
+    species stands for the value the model gave it and its derivative is Σ stoichiometry × rate, undivided. -/
+theorem C08_species_is_amount (m : PyModel) (o : Option (List (String × Rat))) (dc : SDocC)
+    (h : writeModel m o = .ok dc) :
+    ∀ s ∈ dc.species, ∀ size v rate : Rat,
+      speciesSymbol s.hosu size (initialAmountOf s.initAmount size v) = v ∧ symbolRate s.hosu size rate = rate := by
+  obtain ⟨cs, _, he⟩ := writeModel_ok h
+  obtain ⟨_, _, comp, _, hsp⟩ := exportModelC_doc he
+  intro s hs size v rate
+  rw [hsp] at hs
+  cases comp with
+  | none => simp [speciesAttrs] at hs
+  | some c =>
+    simp only [speciesAttrs, List.mem_map] at hs
+    obtain ⟨kv, _, rfl⟩ := hs
+    have h1 : speciesHosu = true := rfl
+    have h2 : speciesInitAmount = true := rfl
+    simp [speciesSymbol, initialAmountOf, symbolRate, h1, h2]
+
+/-- what the older exporter wrote (a concentration, hasOnlySubstanceUnits = false) means in a compartment of
+    size 2: the derivative 6 of the model is read as 3, the value 2 survives (F-C08-14 witness) -/
+example :
+    symbolRate false 2 6 = 3 ∧ speciesSymbol false 2 (initialAmountOf false 2 2) = 2 := by
+  decide +kernel
+
+/-- compartment ids and component names stay apart (F-C08-16): no compartment of a written file is called like a
+    parameter, variable, derived quantity or reaction of the model; the default call never fails on that account. -/
+theorem C08_compartment_ids_apart (m : PyModel) (o : Option (List (String × Rat))) (dc : SDocC)
+    (h : writeModel m o = .ok dc) : ∀ c ∈ dc.compartments, m.names.contains c.1 = false := by
+  obtain ⟨cs, hc, he⟩ := writeModel_ok h
+  rw [(exportModelC_doc he).2.1]
+  exact chooseCompartments_apart hc
+
+theorem C08_default_compartment_total (m : PyModel) :
+    ∃ n, chooseCompartments m.names none = .ok [(n, (defaultCompartmentSize : Rat))] :=
+  chooseCompartments_default_total m.names
+
+/-- variables but no compartment: the export raises (a species needs one) -/
+theorem C08_no_compartment_refused (m : PyModel) (hv : m.vars ≠ []) :
+    ∃ err, writeModel m (some []) = .error err := by
+  have hr : compartmentClashRefused = true := rfl
+  have hl : speciesCompartmentLit = none := rfl
+  simp only [writeModel, chooseCompartments, hr, List.any_nil, Bool.and_false, Bool.false_eq_true, if_false,
+    bind, Except.bind, exportModelC]
+  cases h1 : foldE exportParam SDoc.empty m.params with
+  | error e => exact ⟨e, rfl⟩
+  | ok d1 =>
+    simp only []
+    cases h2 : foldE (fun d kv => exportRule d kv.1 kv.2) d1 m.derived with
+    | error e => exact ⟨e, rfl⟩
+    | ok d2 =>
+      simp only []
+      cases hvars : m.vars with
+      | nil => exact absurd hvars hv
+      | cons v vs => exact ⟨.valueError "SBML species need a compartment, but `compartments` is empty", by simp [speciesCompartment, hl]⟩
+
+/-- `_free_reference` terminates: within `len(taken) + 1` rounds it finds a name that is not taken, so the name of
+    a species reference (and of the default compartment) always exists — the `unreachable` error of the model is. -/
+theorem C08_free_reference_total (taken : List String) (x : String) :
+    (∃ r, freshName taken x (taken.length + 1) = some r ∧ taken.contains r = false) ∧
+    (∃ n, refName taken x = .ok (n, n :: taken) ∧ taken.contains n = false) :=
+  ⟨freshName_total taken x, refName_total taken x⟩
+
+/-- non-vacuity: the former counterexample of F-C08-16 — a parameter called `compartment` — is written with the
+    default compartment `compartment_`, the species in it, as amounts -/
+example : ∃ dc, writeModel ⟨[("compartment", .val 3)], [("x", .val 2)], [], []⟩ none = .ok dc ∧
+    dc.compartments = [("compartment_", 1)] ∧ dc.species = [⟨"x", "compartment_", true, true⟩] := by
+  refine ⟨_, rfl, ?_, ?_⟩ <;> decide +kernel
+example : ∃ dc, writeModel clashModel (some [("cell", 4), ("c2", 1)]) = .ok dc ∧
+    dc.species.map (·.compartment) = ["cell", "cell"] := by
+  refine ⟨_, rfl, ?_⟩; decide +kernel
+example : ∃ err, writeModel clashModel (some [("r1", 4)]) = .error err := ⟨_, rfl⟩
+
 /-! ### facts about the tables and structural choices read from `_export.py` -/
 
 theorem C08_tables :
@@ -432,7 +542,10 @@ theorem C08_tables :
     nonnegSide = .product ∧ unknownCallRaises = true ∧ arityChecked = true ∧ logWithBase = true ∧
     iaSetterExists = true ∧ libParents = pyLibs ∧ binaryNumpyOnly = true ∧ bodyFirstReturn = true ∧
     refFresh = true ∧ refSuffix = "ref" ∧
-    exportOrder = [.params, .derivedParams, .vars, .derivedVars, .rxns] := by
+    exportOrder = [.params, .derivedParams, .vars, .derivedVars, .rxns] ∧
+    speciesHosu = true ∧ speciesInitAmount = true ∧ speciesCompartmentLit = none ∧
+    defaultCompartmentId = "compartment" ∧ defaultCompartmentSize = 1 ∧ defaultCompartmentFresh = true ∧
+    compartmentClashRefused = true := by
   decide
 
 /-- why `math.remainder` must not be exported as `rem` (finding F-C08-11, repaired): the IEEE remainder
